@@ -23,6 +23,7 @@ TECHNIQUE = {
     "C05": "CFG lookup-before-create + who-may-construct/who-may-write + sibling tolerance comparison + exhaustive corner->patch table evaluation",
     "C06": "CFG section ordering in Mesh.write + exhaustive side/corner table evaluation + writer/reader index agreement",
     "C07": "registry/Literal/class-kind agreement + CFG dedup ordering + partial evaluation of the 12 emitted beams (direction-loss rule)",
+    "C08": "abstract-domain analysis of inverse-trigonometric arguments (clipped / damped / unit.unit) + abstract evaluation of the arc edges' argument pairing + affine kinds",
     "C09": "interprocedural may-mutate-parameter effect analysis + affine origin balance on def-use chains + override-bypass (MRO) check + linear ownership of Face expressions",
     "C10": "exhaustive partial evaluation of face permutations, edge map and side addressing against the hexahedron convention",
     "C11": "exhaustive quad-map orientation/conformity check + union-find chop-coverage analysis over literal sketches + chain-source consistency",
